@@ -690,7 +690,7 @@ def run_c11(tier):
             nexec += r["execs"]
             if not r["same_seed_same_run"]:
                 problems.append({"kind": "pct", "prog": by_id[m["prog"]], "detail": r, "sig": "pct/same-seed-different-run"})
-            if r["execs"] != iters:
+            if r["execs"] != iters and not r.get("refused"):
                 problems.append({"kind": "pct", "prog": by_id[m["prog"]], "detail": r, "sig": "pct/iteration-count"})
     logf = os.path.join(out, "pctlog.ndjson")
     nlines = 0
@@ -878,7 +878,9 @@ def run_lemmas(pid, problems):
     rep = []
     for lm in LEMMAS.get(pid, []):
         wd = vlib.fresh_dir(os.path.join(vlib.WORK, "lemma-" + lm["name"]))
-        res = vlib.run_tlc(lm["module"], lm["cfg"], lm.get("env", {}), wd, workers=8, timeout=900)
+        env = lm.get("env", {})
+        env = env() if callable(env) else env
+        res = vlib.run_tlc(lm["module"], lm["cfg"], env, wd, workers=8, timeout=900)
         st += res["states"]
         tr += res["transitions"]
         good = res["ok"] == lm.get("expect_ok", True)
@@ -889,9 +891,22 @@ def run_lemmas(pid, problems):
     return st, tr, rep
 
 
+def replay_lemma_programs():
+    """Tiny programs for the Replay.tla product (written with every field the specification reads)."""
+    from gen import op, prog
+    path = os.path.join(vlib.WORK, "replay-lemma.ndjson")
+    os.makedirs(vlib.WORK, exist_ok=True)
+    P = [prog(1, "replay", [[op("spawn", v=1), op("rand"), op("lock", o=0, w=0), op("ginc", w=0), op("unlock", w=0), op("join", v=1)],
+                            [op("lock", o=0, w=0), op("rand"), op("unlock", w=0), op("store", o=0, v=2)]], nmutex=1, atomics=[0]),
+         prog(2, "replay", [[op("spawn", v=1), op("lock", o=0, w=0), op("lock", o=1, w=1), op("unlock", w=1), op("unlock", w=0)],
+                            [op("lock", o=1, w=0), op("lock", o=0, w=1), op("panic", v=3)]], nmutex=2, atomics=[0])]
+    vlib.write_ndjson(path, P)
+    return path
+
+
 LEMMAS = {
     "C01": [{"name": "replay-determines-execution", "module": "Replay", "cfg": "Replay.cfg",
-             "env": {"PROGS": os.path.join(vlib.VERIF, "corpus", "replay.ndjson"), "BROKEN": "none"}}],
+             "env": lambda: {"PROGS": replay_lemma_programs(), "BROKEN": "none"}}],
 }
 # anti-vacuity: deliberately broken variants must be refuted (run by `vcheck setup`)
 SELFTESTS = [
@@ -900,9 +915,9 @@ SELFTESTS = [
     {"name": "dfs-mutant-last-flag", "module": "Dfs", "cfg": "Dfs_mut1.cfg", "expect_ok": False, "env": {}},
     {"name": "dfs-mutant-no-truncate", "module": "Dfs", "cfg": "Dfs_mut2.cfg", "expect_ok": False, "env": {}},
     {"name": "replay-broken-skip-same", "module": "Replay", "cfg": "Replay.cfg", "expect_ok": False,
-     "env": {"PROGS": os.path.join(vlib.VERIF, "corpus", "replay.ndjson"), "BROKEN": "skip_same"}},
+     "env": lambda: {"PROGS": replay_lemma_programs(), "BROKEN": "skip_same"}},
     {"name": "replay-broken-no-marker", "module": "Replay", "cfg": "Replay.cfg", "expect_ok": False,
-     "env": {"PROGS": os.path.join(vlib.VERIF, "corpus", "replay.ndjson"), "BROKEN": "no_marker"}},
+     "env": lambda: {"PROGS": replay_lemma_programs(), "BROKEN": "no_marker"}},
 ]
 
 
